@@ -26,6 +26,10 @@ TopCalls ==
          C("DeletePayload", TRUE, [proto |-> 3, spisz |-> 4, num |-> 2, spis |-> << D(4, 16), D(4, 17) >>]),
          C("DeletePayload", FALSE, [proto |-> 1, spisz |-> 0, num |-> 0, spis |-> << >>]),
          C("DeletePayload", FALSE, [proto |-> 2, spisz |-> 4, num |-> 1, spis |-> << << 255, 255, 255, 255 >> >>]),
+         \* count and list disagree: the payload holds what it was given (encoding such a payload is refused, not patched up)
+         C("DeletePayload", FALSE, [proto |-> 3, spisz |-> 4, num |-> 3, spis |-> << D(4, 18), D(4, 19) >>]),
+         C("DeletePayload", FALSE, [proto |-> 3, spisz |-> 4, num |-> 1, spis |-> << D(4, 18), D(4, 19), D(4, 20) >>]),
+         C("DeletePayload", FALSE, [proto |-> 3, spisz |-> 4, num |-> 0, spis |-> << D(4, 18) >>]),
          C("EAP", TRUE, [code |-> 3, id |-> 7]), C("EAP", FALSE, [code |-> 4, id |-> 255]),
          C("EAPSuccess", TRUE, [id |-> 9]), C("EAPfailure", TRUE, [id |-> 0]), C("EAPSuccess", FALSE, [id |-> 255]),
          C("EAP5GStart", TRUE, [id |-> 3]), C("EAP5GStart", FALSE, [id |-> 255]),
